@@ -11,7 +11,6 @@ import (
 	"math/rand"
 	"net"
 	"net/http"
-	"net/http/httptest"
 	"sort"
 	"strings"
 	"sync"
@@ -108,10 +107,10 @@ func TestVerifN2HCorr(t *testing.T) {
 	r := vfNewRand(22)
 	n := vfEnvInt("VERIF_N", 600)
 	stub := &vfN2HStub{script: map[int]string{}, release: make(chan struct{})}
-	srv := httptest.NewServer(stub)
+	srv := vfHTTPServer(stub)
 	defer srv.Close()
 	// the "dead" address: a listener that reads the request and hangs up (transport error, request seen)
-	dl, _ := net.Listen("tcp", "127.0.0.1:0")
+	dl, _ := vfListen()
 	deadHost := dl.Addr().String()
 	defer dl.Close()
 	go stub.serveHang(dl)
@@ -334,7 +333,7 @@ func vfN2HAccept(post bool, status string) bool {
 // destination answers 500: the property wants Requeue; what does the tool answer?
 func TestVerifN2HGiveUp(t *testing.T) {
 	stub := &vfN2HStub{script: map[int]string{0: "500"}, release: make(chan struct{})}
-	srv := httptest.NewServer(stub)
+	srv := vfHTTPServer(stub)
 	defer srv.Close()
 	httpclient = &http.Client{Timeout: 2 * time.Second}
 	*sample = 1.0
